@@ -356,7 +356,10 @@ def runOp (d : EnumDef) (args : List String) : String :=
     let taAbs := (d.variants.filter (fun v => v.disabled || (match v.fields with | .tuple _ => false | _ => true))).flatMap
       (fun v => let b := [116, 114, 121, 95, 97, 115, 95] ++ snakify v.ident
                 [b, b ++ [95, 114, 101, 102], b ++ [95, 109, 117, 116]])
-    String.intercalate " " ((isAbs ++ taAbs).map (fun n => encodeStr n ++ "=absent"))
+    -- a name that another (enabled) variant generates is of course present; every name is listed once
+    let present := (isMethods d).map (·.1) ++ (tryAsMethods d).flatMap (fun m => [m.1, m.1 ++ [95, 114, 101, 102], m.1 ++ [95, 109, 117, 116]])
+    let names := ((isAbs ++ taAbs).filter (fun n => !present.contains n)).eraseDups
+    String.intercalate " " (names.map (fun n => encodeStr n ++ "=absent"))
   | ["ismethods"] => String.intercalate " " ((isMethods d).map (fun m => encodeStr m.1 ++ ":" ++ encodeStr m.2))
   | ["tryasmethods"] =>
     String.intercalate " " ((tryAsMethods d).map (fun m => encodeStr m.1 ++ ":" ++ encodeStr m.2.1 ++ ":" ++ toString m.2.2))
